@@ -241,7 +241,14 @@ pub fn gen_plan<T: Sem>(entry: &str, hooks: &Hooks, prop: &str, tier: &str, rng:
     let compress = rng.chance(1, 2);
     let validate = rng.chance(1, 2);
     let conv = rng.chance(1, 4);
-    let invalid_ok = prop == "C10" && matches!(class, Class::Benign | Class::Corrupt) && rng.chance(1, 2);
+    // values that serialize but are not valid elements (points of the curve outside the
+    // subgroup): under Validate::No they must round-trip (C09), under Validate::Yes be rejected (C10)
+    let invalid_ok = matches!(class, Class::Benign | Class::Corrupt)
+        && match prop {
+            "C10" => rng.chance(1, 2),
+            "C09" => rng.chance(1, 4),
+            _ => false,
+        };
     let nrec = match class {
         Class::Foreign | Class::Sweep => 1,
         _ => *rng.pick(&[1usize, 1, 1, 2, 2, 3, 4]),
